@@ -26,6 +26,7 @@ func init() {
 	vrt.Register("C12_fresh_options_per_call", FreshOptionsPerCall)
 	vrt.Register("C12_chained_calls", ChainedCalls)
 	vrt.Register("C12_receiver_arguments", ReceiverArguments)
+	vrt.Register("C12_stored_block_as_argument", StoredBlockAsArgument)
 }
 
 func itoa(n int) string { return strconv.Itoa(n) }
@@ -749,6 +750,60 @@ func CalleeExpressions() {
 	} else {
 		vrt.Assert(err == nil, "a function produced by an expression is called; a nil trailing error is no error: "+c.in)
 		vrt.Assert(got == "["+c.want+"]", "the function's first result is the call's value: "+c.in)
+	}
+	vrt.Cover("done")
+}
+
+// ---- an argument is the result of rendering a stored block (contentOf) or of a helper
+// that runs its block, and that block itself calls Go functions: the pending
+// call still receives the arguments that were evaluated before it, unchanged
+func StoredBlockAsArgument() {
+	a, b := vrt.BytesIn(1, alpha), vrt.BytesIn(1, alpha)
+	n := vrt.Int()
+	var log []string
+	ctx := plush.NewContext()
+	ctx.Set("a", a)
+	ctx.Set("b", b)
+	ctx.Set("n", n)
+	ctx.Set("f3", func(p, q string, h interface{}) string {
+		log = append(log, "f3("+p+","+q+")")
+		return p + q
+	})
+	ctx.Set("g2", func(x, y int) string {
+		log = append(log, "g2("+itoa(x)+","+itoa(y)+")")
+		return "g"
+	})
+	ctx.Set("wrap", func(help plush.HelperContext) (template.HTML, error) {
+		s, err := help.Block()
+		return template.HTML(s), err
+	})
+	var in, want string
+	var wantLog []string
+	N := itoa(n)
+	switch vrt.Choice(4) {
+	case 0:
+		in = "<% contentFor(\"c\") { %><%= g2(n, 8) %><% } %>[<%= f3(a, b, contentOf(\"c\")) %>]"
+		want, wantLog = "["+a+b+"]", []string{"g2(" + N + ",8)", "f3(" + a + "," + b + ")"}
+	case 1:
+		in = "<% contentFor(\"c\") { %><%= g2(n, 8) %><%= g2(9, n) %><% } %>[<%= f3(a, b, contentOf(\"c\")) %>|<%= f3(b, a, contentOf(\"c\")) %>]"
+		want = "[" + a + b + "|" + b + a + "]"
+		wantLog = []string{"g2(" + N + ",8)", "g2(9," + N + ")", "f3(" + a + "," + b + ")", "g2(" + N + ",8)", "g2(9," + N + ")", "f3(" + b + "," + a + ")"}
+	case 2:
+		in = "[<%= f3(a, b, wrap() { %><%= g2(n, 8) %><% }) %>]"
+		want, wantLog = "["+a+b+"]", []string{"g2(" + N + ",8)", "f3(" + a + "," + b + ")"}
+	default:
+		in = "<% contentFor(\"c\") { %><%= f3(b, b, 1) %><% } %>[<%= f3(a, f3(a, b, contentOf(\"c\")), 2) %>]"
+		want = "[" + a + a + b + "]"
+		wantLog = []string{"f3(" + b + "," + b + ")", "f3(" + a + "," + b + ")", "f3(" + a + "," + a + b + ")"}
+	}
+	out, err := render(in, ctx)
+	vrt.Assert(err == nil, "a call with a rendered block among its arguments renders")
+	vrt.Assert(out == want, "the pending call yields its own result")
+	vrt.Assert(len(log) == len(wantLog), "every function is invoked exactly once per call")
+	for i := 0; i < len(wantLog); i++ {
+		if i < len(log) {
+			vrt.Assert(log[i] == wantLog[i], "each function receives exactly its own arguments, also when a block that calls functions is rendered between the evaluation of the arguments and the call")
+		}
 	}
 	vrt.Cover("done")
 }
